@@ -7,10 +7,11 @@ import re
 
 from ..builtin import BUILTINS, check_functions, compare_with_spec
 from ..cfg import cfg_of
+from ..flow import FlowExpander
 from ..index import AnalysisError, function_stmts, walk_no_nested
 from ..preds import PredError, decision_table
 from ..roles import callable_list_loops, reason_codes_in
-from ..util import callee_last, calls_in, kw, path_condition, show_condition, txt
+from ..util import Expander, alpha, callee_last, calls_in, canonical_locals, kw, path_condition, show_condition, txt
 
 EXPLANATION = (
     "Static sibling-agreement analysis (ast, CFG guards, symbolic normal forms; nothing executed). (R1) every "
@@ -107,31 +108,45 @@ def r3_signatures(ctx):
 
 
 # ---- R4 ------------------------------------------------------------------------
-SCHEMA_NAMES = {"schema", "col_schema", "column_info", "is_schema_col", "s", "col"}
+def _twin_view(f):
+    """Flow-sensitive expander that makes the guard atoms of a twin function independent of its local names:
+    locals are expanded to their (single reaching) definitions, loop variables / accumulators get role-derived
+    names, parameters are named by role."""
+    roles = {}
+    for i, p in enumerate(f.positional):
+        if p in ("self", "cls"):
+            continue
+        if "schema" in p:
+            roles[p] = "SCHEMA"
+        elif "info" in p:
+            roles[p] = "INFO"
+        elif i == 1:
+            roles[p] = "DATA"
+    return FlowExpander(f.node, roles)
 
 
 def _keep(text, node):
-    return bool({n.id for n in ast.walk(node) if isinstance(n, ast.Name)} & SCHEMA_NAMES)
+    t = text
+    return "SCHEMA" in t or "INFO." in t
 
 
 def _keep_with_data(text, node):
     """also conditions on the presence of a column in the data (twin bookkeeping functions)"""
-    names = {n.id for n in ast.walk(node) if isinstance(n, ast.Name)}
-    return bool(names & (SCHEMA_NAMES | {"col_name", "absent_column_names", "column_names"}))
+    return "SCHEMA" in text or "INFO." in text or "DATA" in text or "ACC_" in text
 
 
 def _rename(text):
-    text = text.replace("get_lazyframe_column_names(check_obj)", "check_obj.columns")
-    if text.endswith(" in check_obj"):
+    text = text.replace("get_lazyframe_column_names(DATA)", "DATA.columns")
+    if text.endswith(" in DATA"):
         text += ".columns"
     return text
 
 
-def _schema_cond(cfg, nid, with_data=False):
-    return path_condition(cfg, nid, keep=_keep_with_data if with_data else _keep, rename=_rename)
+def _schema_cond(cfg, nid, view, with_data=False):
+    return path_condition(cfg, nid, keep=_keep_with_data if with_data else _keep, rename=_rename, expand=view)
 
 
-def _effect_sites(f):
+def _effect_sites(f, mapping):
     """(kind, key, stmt) effect sites of a twin function."""
     sites = []
     for s in function_stmts(f):
@@ -147,8 +162,8 @@ def _effect_sites(f):
                     for r in reason_codes_in(rc) if rc is not None else ["<none>"]:
                         sites.append(("result", r, s))
             if callee_last(c) in ("append", "extend") and isinstance(c.func, ast.Attribute) and isinstance(c.func.value, ast.Name) \
-                    and c.func.value.id in ("absent_column_names", "filter_out_columns", "regex_match_patterns", "column_names"):
-                sites.append(("append", c.func.value.id, s))
+                    and mapping.get(c.func.value.id, "").startswith("ACC_"):
+                sites.append(("append", mapping[c.func.value.id][4:], s))
     return sites
 
 
@@ -162,12 +177,13 @@ def r4_twins(ctx):
             raise AnalysisError(f"twin function {fname} missing")
         ctx.touched(fa, fb)
         ca, cb = cfg_of(fa.node), cfg_of(fb.node)
+        va, vb = _twin_view(fa), _twin_view(fb)
         sa = {}
-        for kind, key, st in _effect_sites(fa):
-            sa.setdefault((kind, key), []).append(_schema_cond(ca, ca.node_of(st).id, fname == "collect_column_info"))
+        for kind, key, st in _effect_sites(fa, va.acc):
+            sa.setdefault((kind, key), []).append(_schema_cond(ca, ca.node_of(st).id, va, fname == "collect_column_info"))
         sb = {}
-        for kind, key, st in _effect_sites(fb):
-            sb.setdefault((kind, key), []).append(_schema_cond(cb, cb.node_of(st).id, fname == "collect_column_info"))
+        for kind, key, st in _effect_sites(fb, vb.acc):
+            sb.setdefault((kind, key), []).append(_schema_cond(cb, cb.node_of(st).id, vb, fname == "collect_column_info"))
         for k in sorted(set(sa) | set(sb)):
             ga = sorted(sa.get(k, []), key=repr)
             gb = sorted(sb.get(k, []), key=repr)
@@ -201,12 +217,30 @@ def r4_twins(ctx):
 
 
 def _early_return_tests(f):
+    """Conditions (over schema / column-info attributes) under which the stage hands its input back untouched:
+    `return <data parameter>` statements that no assignment to the parameter reaches."""
+    cfg = cfg_of(f.node)
+    rd = cfg.reaching_defs()
+    view = _twin_view(f)
+    data = f.positional[1]
+    mutated = set()
+    for s in function_stmts(f):
+        for c in calls_in(s):
+            if isinstance(c.func, ast.Attribute) and txt(c.func.value) == data and isinstance(kw(c, "inplace"), ast.Constant) and kw(c, "inplace").value is True:
+                mutated.add(cfg.node_of(s).id)
     out = []
-    for s in f.node.body:
-        if isinstance(s, ast.If) and len(s.body) == 1 and isinstance(s.body[0], ast.Return) \
-                and isinstance(s.body[0].value, ast.Name) and s.body[0].value.id == f.positional[1]:
-            out.append(txt(s.test))
-    return out
+    for s in function_stmts(f):
+        if isinstance(s, ast.Return) and isinstance(s.value, ast.Name) and s.value.id == data:
+            n = cfg.node_of(s)
+            defs = rd[n.id].get(data, set())
+            if defs - {cfg.entry.id}:
+                continue
+            if any(n.id in cfg.reachable(m) for m in mutated):
+                continue
+            pc = _schema_cond(cfg, n.id, view)
+            if pc[0]:
+                out.append(show_condition(pc))
+    return sorted(out)
 
 
 def r1_pyspark(ctx):
